@@ -149,7 +149,7 @@ class Check:
             return json.load(f)
 
     # ---- trace validation ------------------------------------------------------
-    def validate(self, module, traces, *, constants=None, chunk=200, jobs=12, timeout=900, label=None,
+    def validate(self, module, traces, *, constants=None, chunk=200, jobs=12, timeout=400, label=None,
                  count=True, env=None, heap="3g"):
         """Validate `traces` (list of lists of events) with spec/<module>.tla.
         Returns one dict per trace: {reached, len, accepted, ...extra fields printed by Post}."""
